@@ -32,8 +32,10 @@ func wipeOutFragment(part *partitions.Partition, name string, f *fragment) error
 	if err != nil {
 		return err
 	}
-	// Delete the fragment from partition.
-	part.Map().Delete(name)
+	// Delete the fragment from partition - unless somebody else has wiped it out
+	// already (Destroy does not take the fragment's lock) and a writer has created
+	// the next fragment under the same name meanwhile: that one is not ours to remove.
+	part.Map().CompareAndDelete(name, f)
 	return nil
 }
 
